@@ -221,6 +221,10 @@ def check_privkey(case):
         if case.get("point"):
             cp = attempt(bits.compute_point, b)
             want = ec.pub(v)
+            if want[0] < 1 << 248:
+                cls.append("nt:public-point-short-x")
+            if want[1] < 1 << 248:
+                cls.append("nt:public-point-short-y")
             f.expect(not raised(cp) and seq(cp) == want, "compute_point/ne-kG", repr(cp)[:100])
             for comp in (True, False):
                 pk = attempt(bits.keys.pub, b, compressed=comp)
@@ -306,7 +310,10 @@ def law_cases(draw):
 
 @st.composite
 def privkey_cases(draw):
-    kind = draw(st.sampled_from(["len", "len-near-valid", "boundary", "valid", "random32", "text-like"]))
+    kind = draw(st.sampled_from(["len", "len-near-valid", "boundary", "valid", "random32", "text-like", "short-coord"]))
+    if kind == "short-coord":
+        # kG with a coordinate below 2^248: its fixed-width encoding has a leading zero byte
+        return {"key": draw(st.sampled_from(gen.SHORT_COORD_KEYS)).to_bytes(32, "big").hex(), "point": True}
     if kind == "text-like":
         # a valid key whose 32 bytes read as text (hex digits, whitespace, a WIF fragment): opaque bytes all the same
         return {"key": draw(gen.lookalike_keys32()).hex(), "point": True, "textlike": 1}
@@ -352,6 +359,6 @@ def targets(tier):
                          "nt:after-mod-n-division-by-the-slope-denominator", "nt:operand-coordinate-in-n..p"]),
         Target("law-small", check_small, enumerate_=enum_small, exhaustive=True, required=["nt:small-after-ecdsa-verify"]),
         Target("privkey", check_privkey, strategy=lambda tier: privkey_cases(), budget={"quick": 1500, "thorough": 30000},
-               required=["nt:invalid-len", "nt:invalid-range", "nt:valid-boundary-or-leading-zero", "nt:valid-key-reads-as-text"]),
+               required=["nt:invalid-len", "nt:invalid-range", "nt:valid-boundary-or-leading-zero", "nt:valid-key-reads-as-text", "nt:public-point-short-x", "nt:public-point-short-y"]),
         Target("keygen", check_keygen, enumerate_=enum_keygen, required=["nt:draw-zero || rng-not-consulted", "nt:draw-max || rng-not-consulted", "nt:draw-one || rng-not-consulted"], shards=2),
     ]
